@@ -16,7 +16,7 @@ values of sizes, lengths, counts and identifiers; (v) two cooperating sites that
 """ if suf.startswith("r2") else ""
 round3 = """This is a THIRD round. Mutations inside the central functions of the anchored files and in their direct helpers have
 been tried. Now target the WIRING that makes the property hold in the running daemon: how sessions create, register, initialise,
-replace and dispose their tables and senders (protocols/bgp/server/fsm_address_family.go init/dispose/bmpInit, fsm_established.go,
+replace and dispose their tables and senders (protocols/bgp/server/fsm_address_family.go init/dispose/bmpInit, fsm_established.go, bmp_receiver.go, bmp_router.go, protocols/isis/server/server.go + net_ifa_manager.go + the goroutine start/stop code,
 peer.go, server.go, bgp_api.go, routingtable/vrf, routingtable/client_manager.go, cmd/bio-rd), the order of calls, which object
 is passed where (the right VRF / RIB / chain / options for the right address family), what happens on the second establishment
 of a session, with two address families, two VRFs, or two peers sharing state. The change must still break THIS property.
